@@ -579,7 +579,8 @@ func (e *Enc) verifyLoopBody(fn *ssa.Function, c *FuncContract, li *LoopInfo) {
 	spec := c.Loops[li.ord]
 	fr := e.newFrame(fn, 0, "")
 	fr.contract = c
-	fr.region = li.blocks
+	fr.region = bodyRegion(li)
+	fr.regionLoop = li
 	fr.lazy = true
 	st := &State{H: map[string]T{}, ep: e.ep0}
 	e.st = st
